@@ -2,21 +2,24 @@ package main
 
 import (
 	"fmt"
+	"os"
 
-	"github.com/youzan/ZanRedisDB/common"
-	"zmc/storemc"
+	"zmc/servermc"
 )
 
 func main() {
-	s := storemc.Open(storemc.Options{Engine: "mem-skiplist", Policy: common.LocalDeletion, DataVer: common.DefaultDataVer, Leader: true})
-	ts := int64(1600000000) * 1e9
-	for _, u := range storemc.AllUniverses() {
-		for _, c := range u.Cmds {
-			s.Load(storemc.Dump{})
-			r1 := s.Write(ts, c...)
-			r2 := s.Write(ts, c...)
-			fmt.Printf("%-40v -> %v ; again -> %v\n", c, r1, r2)
-		}
+	servermc.Silence()
+	n, err := servermc.Start(23000, 4, "")
+	if err != nil {
+		fmt.Println(err)
+		os.Exit(1)
 	}
-	s.Destroy()
+	defer n.Stop()
+	c, _ := servermc.Dial(n.Port)
+	pool := servermc.KeyPool(4)
+	for _, cmd := range [][]string{{"set", pool[0], "a"}, {"get", pool[0]}, {"exists", pool[0], pool[1]}, {"get", pool[0]}, {"mget", pool[0], pool[1]}, {"get", pool[0]}, {"del", pool[0], pool[1]}, {"get", pool[0]},
+		{"plset", pool[0], "x", pool[1], "y"}, {"get", pool[0]}, {"get", pool[1]}, {"del", pool[0]}, {"get", pool[1]}, {"exists", pool[1]}, {"get", pool[1]}} {
+		r, err := c.Do(cmd...)
+		fmt.Println(cmd, "->", r, err)
+	}
 }
